@@ -41,6 +41,7 @@
 #include <unistd.h>
 
 #include "alloc.h"
+#include "socket.h"
 #include "authenticate.h"
 #include "cmdline_config.h"
 #include "element.h"
@@ -514,13 +515,23 @@ int __wrap_timerfd_settime(int fd, int flags, const struct itimerspec *nv, struc
 
 /* observation of every send: buffered_socket_writev is reached through function pointers that were
  * initialised from other translation units, so --wrap sees them */
-struct socket_io_vector;
 extern int __real_buffered_socket_writev(void *this_ptr, struct socket_io_vector *io_vec, unsigned int count);
 int __wrap_buffered_socket_writev(void *this_ptr, struct socket_io_vector *io_vec, unsigned int count)
 {
 	int fd = *(int *)this_ptr; /* struct buffered_socket begins with io_event whose first member is sock */
+	size_t total = 0;
+	for (unsigned int i = 0; i < count; i++) total += io_vec[i].iov_len;
+	uint8_t *flat = __real_malloc(total + 1);
+	size_t o = 0;
+	for (unsigned int i = 0; i < count; i++) { memcpy(flat + o, io_vec[i].iov_base, io_vec[i].iov_len); o += io_vec[i].iov_len; }
+	char *h = hexdup(flat, total);
+	free(flat);
+	/* the frame is logged before the call: a close inside the call must not hide it */
+	struct simfd *s = sim(fd);
+	bool was_open = s && s->open;
 	int ret = __real_buffered_socket_writev(this_ptr, io_vec, count);
-	out("SEND %s ret=%d", hname(fd), ret);
+	out("SEND %s ret=%d open=%d %s", hname(fd), ret, was_open ? 1 : 0, h);
+	free(h);
 	return ret;
 }
 
